@@ -22,4 +22,4 @@ for p in $props; do
 done
 echo "CAUGHT-BY:${caught:- (none)}"
 mkdir -p /tmp/seedlog/replays-$name; cp $SV/verif/evidence/replays/* /tmp/seedlog/replays-$name/ 2>/dev/null
-git -C /repo worktree remove --force $SV/repo; rm -rf $SV
+[ -n "${KEEP:-}" ] || { git -C /repo worktree remove --force $SV/repo; rm -rf $SV; }
